@@ -225,7 +225,10 @@ class _CFIProcedureTracker:
                         directive == ".cfi_endproc"
                         and procedure_start is not None
                     ):
-                        procedure_end = (idx, offset)
+                        # The end is inclusive: code inserted at the offset
+                        # of the .cfi_endproc is placed before it (see
+                        # split_block) and is still in the procedure.
+                        procedure_end = (idx, offset + 1)
                         self._tree.addi(procedure_start, procedure_end)
 
     def in_procedure(self, block_idx: int, offset: int) -> bool:
